@@ -8,6 +8,8 @@ R01.3 error list discipline: SyntaxErrors are pushed only in add_error; entries 
       reviewed sites.  parse_into discards the Err of handle_token_mismatch / handle_prediction_error (`break`) and
       relies on the list being non-empty, so a removal reachable from those calls turns an error into a possible
       success.
+R01.5 prediction examines the whole transition table for every look-ahead token (a valid sentence must not be
+      rejected because a transition to a lower numbered state was skipped) - same rule as C08 R08.4.
 R01.4 check_and_transform_ll: left recursion is tested before left factoring (gate, see C11) and left_factor is
       applied to the checked grammar on the success path.
 Language equality itself (grammars x inputs) is NOT decided.
@@ -225,6 +227,10 @@ def check(ctx):
     # the discarded results really are discarded only for the two handlers (documented precondition of R01.3)
     for h in (ll.H_MISMATCH, ll.H_PREDICTION):
         facts.body(h)
+
+    # ---------------------------------------------------------------- R01.5 (shared with C08 R08.4)
+    from .c08 import scan_complete, EVAL
+    scan_complete(ctx, facts.body(EVAL), "R01.5")
 
     # ---------------------------------------------------------------- R01.4
     t_ll = facts.body("parol::generators::grammar_trans::check_and_transform_ll")
